@@ -1557,10 +1557,8 @@ func resolveVarIn(computed map[string]pr.RawTokens, token Token, inProgress []st
 		return []Token{pa.NewFunctionBlock(token.Pos(), fn.Name, arguments)}
 	}
 
-	_, args := pa.ParseFunction(token)
-	// first arg is name, next args are default value
-	varNameToken, default_ := args[0], args[1:]
-	variableName := varNameToken.(pa.Ident).Value
+	// first arg is name, what follows the first comma is the default value
+	variableName, default_ := validation.ParseVar(token)
 
 	isCyclic := false
 	for _, name := range inProgress {
